@@ -372,11 +372,11 @@ class Plan:
     pass
 
 
-def gen_kernel(r, name="k", rich=True, exec_safe=True, feats=None):
+def gen_kernel(r, name="k", rich=True, exec_safe=True, feats=None, general_atomic=False):
     """A rule-conforming kernel.  `rich`: use the whole feature menu; `exec_safe`: keep the kernel
     executable and independent (needed by the execution checks; the rule checks may relax it).
     Returns a Kernel with .meta: groups (outer/inner counts), sizes of in/out/acc, features used."""
-    feats = feats if feats is not None else set()
+    allf, feats = feats, set()
     use_dim = rich and r.random() < 0.2
     use_restrict = rich and r.random() < 0.3
     args = ["const int N", "const int M",
@@ -392,7 +392,7 @@ def gen_kernel(r, name="k", rich=True, exec_safe=True, feats=None):
         pre = "int hp_%s(const int a, const int b) {\n  return 3 * a + b;\n}\n" % name
         feats.add("helper")
     K = Kernel(name, args, [], pre=pre)
-    K.meta = {"feats": feats, "groups": [], "N": None, "M": None}
+    K.meta = {"feats": feats, "groups": [], "N": None, "M": None, "general_atomic": general_atomic}
     body = K.body
     n_groups = r.choice([1, 1, 1, 2, 2, 3]) if rich else 1
     base = 0
@@ -412,6 +412,8 @@ def gen_kernel(r, name="k", rich=True, exec_safe=True, feats=None):
         else:
             body += nodes
     K.meta["out_cells"] = base
+    if allf is not None:
+        allf |= feats
     return K
 
 
@@ -451,7 +453,7 @@ def gen_group(r, K, g, base, rich, exec_safe):
     grp["olin"] = olin
     ctx = {"g": g, "grp": grp, "K": K, "r": r, "rich": rich, "sec": 0, "shared": [], "excl": [], "T": T,
            "idims": idims, "base": base, "slots": slots, "olin": olin, "feats": feats, "exec_safe": exec_safe,
-           "max_inner_dims": False}
+           "max_inner_dims": False, "allow_general_atomic": K.meta.get("general_atomic")}
     # between @outer and @inner: declarations
     inner_stmts = []
     if rich and r.random() < 0.6:
